@@ -17,6 +17,7 @@ import sys
 from fractions import Fraction
 
 from mc import fixtures
+from mc import space
 from mc.engine import Fail, result
 
 ID = 'C12'
@@ -251,6 +252,10 @@ def _chunks(it, size):
 
 
 def cases(tier, seed):
+    yield from space.with_time_zones(_cases(tier, seed), 12)
+
+
+def _cases(tier, seed):
     # ---- core: every file with n <= 5 (the property bound), 0..2 events, all eight variants
     yield dict(kind='n0')
     for n in range(1, 6):
